@@ -121,7 +121,10 @@ Section Proofs.
   (** invariant of an honest stream carrying [req] *)
   Definition pinv (req : request) (st : stream) : Prop :=
     (delivered st <= length (wire st))%nat
-    /\ (forall n, cs st = CWriting n -> (n <= length (wire st))%nat)
+    /\ match cs st with
+       | CWriting n | CAbandoned n => (n <= length (wire st))%nat
+       | _ => True
+       end
     /\ match ss st with
        | SRunning q => q = strip_req req
        | SWriting r =>
@@ -157,12 +160,10 @@ Section Proofs.
     clear Hh Hw.
     destruct st as [w c s d rw inv rs sp]. unfold pinv in *. proj.
     destruct l; proj; break H; inversion H; subst; clear H; proj.
-    all: try (repeat split; try assumption; try exact I; try lia;
-              try (intros n0 Hn0; inversion Hn0; subst; try lia; try (specialize (I2 _ eq_refl); lia));
-              fail).
+    all: try (repeat split; try assumption; try exact I; try lia; fail).
     - (* Recv *)
       repeat split; try assumption.
-      destruct c as [n| | |]; proj; try lia. specialize (I2 _ eq_refl). lia.
+      destruct c as [n| | |n]; proj; lia.
     - (* TryDecode succeeded *)
       repeat split; try assumption.
       destruct (d =? length w)%nat; inversion HD; reflexivity.
@@ -175,7 +176,6 @@ Section Proofs.
     - (* CRead *)
       destruct I3 as [b1 [Eb Ee]]. inversion Eb; subst.
       repeat split; try assumption.
-      + intros n0 Hn0. discriminate.
       + exists b1. auto.
       + intros Wr. pose proof (response_roundtrip max (handler (strip_req req)) [] b1 Wr Ee) as RT.
         rewrite app_nil_r in RT.
@@ -185,7 +185,6 @@ Section Proofs.
   Lemma P_open w : P (open_stream w).
   Proof.
     intros req _. unfold pinv, open_stream. cbn. repeat split; try lia; try exact I.
-    intros n H. inversion H. lia.
   Qed.
 
   (** C02 pairing / own response or error: on every honest stream of any connection, under any
@@ -219,7 +218,7 @@ Section Proofs.
   Qed.
 
   (** ---------- C12: abandonment ---------- *)
-  Definition ainv (st : stream) : Prop := cs st = CAbandoned -> reset st = true /\ stopped st = true.
+  Definition ainv (st : stream) : Prop := abandoned st = true -> reset st = true /\ stopped st = true.
 
   Lemma sstep_ainv st l st' : ainv st -> sstep st l = Some st' -> ainv st'.
   Proof.
@@ -239,7 +238,7 @@ Section Proofs.
   (** An abandoned stream that is not yet closed always has an enabled server step, and that
       step closes it (drops a running handler): progress under weak fairness in one step. *)
   Lemma abandoned_progress st :
-    ainv st -> cs st = CAbandoned -> closed (ss st) = false ->
+    ainv st -> abandoned st = true -> closed (ss st) = false ->
     exists l st', In l [NoticeStop; NoticeReset] /\ sstep st l = Some st' /\ closed (ss st') = true
                   /\ invocations st' = invocations st.
   Proof.
@@ -264,7 +263,7 @@ Section Proofs.
 
   Theorem no_credit_leak sched ws c' :
     crun (map open_stream ws) sched = Some c' -> server_quiescent c' ->
-    forall st, In st c' -> cs st = CAbandoned -> closed (ss st) = true.
+    forall st, In st c' -> abandoned st = true -> closed (ss st) = true.
   Proof.
     intros H Q st I A.
     assert (F : Forall ainv c').
